@@ -359,7 +359,7 @@ def common_oracles(x, ctx, pick=0, strict=False):
         ctx.label('carveout:deprecated-tagstyle')
     for r in recs:
         if not r['pos']:
-            if _VALIDATE_MSG.match(r['text']) and (cont_line or dep) and not strict:
+            if _VALIDATE_MSG.match(r['text']) and (cont_line or dep) and not strict and ctx.known('C11-F2-validate-position-lost-default-annotations'):
                 # finding C11-F2: validate() reports through annotations.position, which is None when the
                 # annotations object was (a) copied for a continuation line (GtkDocAnnotations.copy() drops
                 # .position) or (b) the block's default object filled by a deprecated tag-style annotation
@@ -384,7 +384,7 @@ def common_oracles(x, ctx, pick=0, strict=False):
                     raise Violation('caret-outside-quoted-line', 'marker_pos %d, quoted %r: %r for X=%r' % (mp, ml, r, x))
             if alone and not dep:
                 idx = line - SX
-                if idx == len(src) - 1 and last_has_text and ml != src[idx] and ml in src[idx] and not strict:
+                if idx == len(src) - 1 and last_has_text and ml != src[idx] and ml in src[idx] and not strict and ctx.known('C11-F3-last-line-quote'):
                     # finding C11-F3: for comment text in front of the end token the parser quotes the
                     # stripped comment, not the source line
                     ctx.label('excluded:F3-last-line-quote')
@@ -727,7 +727,7 @@ def known_shape(case, v):
     """Keys of the shapes found on the unchanged tree (only reachable with case['strict'];
     otherwise the oracle excludes them by construction and counts them)."""
     if v.clause == 'diagnostic-without-position' and _VALIDATE_MSG.search(v.detail.split("'text': ", 1)[-1].lstrip('\'"')):
-        return 'C11-F2-validate-position-lost'
+        return 'C11-F2-validate-position-lost-default-annotations'
     if v.clause == 'quoted-line-is-not-source-line' and case.get('strict'):
         return 'C11-F3-last-line-quote'
     return None
